@@ -36,7 +36,7 @@ EEndOK(ev) == ev.err = "" /\ ev.footer_ok /\ ev.records = Len(want) /\ seen = Le
               /\ ev.late_ok                 \* the records still say the same after the loader has moved on to the end of the file
 EventOK(ev) == CASE ev.e = "val" -> ValOK(ev) [] ev.e = "bulk" -> BitsOK(ev)
                  [] ev.e = "efile" -> EFileOK(ev) [] ev.e = "erec" -> ERecOK(ev) [] ev.e = "eend" -> EEndOK(ev)
-                 [] ev.e = "load" -> ev.ok [] OTHER -> TRUE
+                 [] ev.e = "load" -> ev.ok [] ev.e = "batch" -> ev.ok [] OTHER -> TRUE
 TInit == l = 1 /\ bad = 0 /\ want = <<>> /\ seen = 0
 TNext == /\ l <= Len(Trace) /\ l' = l + 1
          /\ LET ev == Trace[l] IN
